@@ -122,7 +122,11 @@ def handle (j : Json) : E String := do
       let tdS := showIdx (Op.npIndex A.rows A.cols A.td.f ids)
       let tdR := (A.rmm A.rows (forceV A.rows A.rows eyeM).f).f
       let tdRS := showIdx (Op.npIndex A.rows A.cols tdR ids)
-      pure ("{" ++ pre ++ s!",\"code\":{showRes code},\"spec\":{specS},\"den\":{showMat A.rows A.cols A.den.f},\"codeDense\":{showMat A.rows A.cols A.td.f},\"tdIndex\":{tdS},\"codeDenseR\":{showMat A.rows A.cols tdR},\"tdIndexR\":{tdRS},\"absbound\":{bound}" ++ "}")
+      -- `codeDenseM` / `tdIndexM`: the same through `A @ X` (`Op.mm` on the identity) whatever path `to_dense` takes: columns
+      -- are read by `A @ e_j`, and `Op.td` of a wide operand (8 * rows < cols) goes through `I @ A` instead
+      let tdM := (A.mm A.cols (forceV A.cols A.cols eyeM).f).f
+      let tdMS := showIdx (Op.npIndex A.rows A.cols tdM ids)
+      pure ("{" ++ pre ++ s!",\"code\":{showRes code},\"spec\":{specS},\"den\":{showMat A.rows A.cols A.den.f},\"codeDense\":{showMat A.rows A.cols A.td.f},\"tdIndex\":{tdS},\"codeDenseR\":{showMat A.rows A.cols tdR},\"tdIndexR\":{tdRS},\"codeDenseM\":{showMat A.rows A.cols tdM},\"tdIndexM\":{tdMS},\"absbound\":{bound}" ++ "}")
   | c => throw s!"unknown call {c}"
 
 def main : IO Unit := driverMain handle
